@@ -81,6 +81,9 @@ func init() {
 	checks["SELF"] = &checkInfo{Race: true, QuickBudget: 60}
 }
 
+// degraded lists the white-box wrapper groups replaced by stubs in the last prepare().
+var degraded []string
+
 func fatal(format string, a ...any) {
 	fmt.Fprintf(os.Stderr, "vcheck: "+format+"\n", a...)
 	os.Exit(2)
@@ -146,20 +149,46 @@ func prepare(work string, race bool) string {
 			repl[filepath.Join(repoDir, "internal", "verif", "selfprognative", filepath.Base(o))] = o
 		}
 	}
-	ovb, _ := json.MarshalIndent(map[string]any{"Replace": repl}, "", " ")
 	ovf := filepath.Join(work, "overlay.json")
-	if err := os.WriteFile(ovf, ovb, 0o644); err != nil {
-		fatal("%v", err)
-	}
 	bin := filepath.Join(work, "h")
-	cmd := exec.Command("go", "build", "-tags", "verif", "-overlay", ovf, "-o", bin, "./internal/verif/h")
-	cmd.Dir = repoDir
-	cmd.Env = goEnv()
-	var eb bytes.Buffer
-	cmd.Stderr = &eb
-	cmd.Stdout = &eb
-	if err := cmd.Run(); err != nil {
-		fatal("building harness against %s failed (this is a build error, not a verdict):\n%s", repoDir, eb.String())
+	// The white-box wrapper groups (overlay/mqtt/zz_verif_<group>.go) reach into unexported names.
+	// If one of them does not compile against this tree (an internal was renamed or reshaped) it is
+	// replaced by its stub from overlay/mqtt_stubs and the build is repeated: the parts of the
+	// checks that need the group are skipped (and say so) instead of every check failing to build.
+	stubRe := regexp.MustCompile(`zz_verif_[a-z]+\.go`)
+	degraded = nil
+	for attempt := 0; ; attempt++ {
+		ovb, _ := json.MarshalIndent(map[string]any{"Replace": repl}, "", " ")
+		if err := os.WriteFile(ovf, ovb, 0o644); err != nil {
+			fatal("%v", err)
+		}
+		cmd := exec.Command("go", "build", "-tags", "verif", "-overlay", ovf, "-o", bin, "./internal/verif/h")
+		cmd.Dir = repoDir
+		cmd.Env = goEnv()
+		var eb bytes.Buffer
+		cmd.Stderr = &eb
+		cmd.Stdout = &eb
+		err := cmd.Run()
+		if err == nil {
+			break
+		}
+		swapped := false
+		for _, name := range stubRe.FindAllString(eb.String(), -1) {
+			stub := filepath.Join(ov, "mqtt_stubs", name)
+			key := filepath.Join(repoDir, name)
+			if _, serr := os.Stat(stub); serr == nil && repl[key] != stub {
+				repl[key] = stub
+				degraded = append(degraded, strings.TrimSuffix(strings.TrimPrefix(name, "zz_verif_"), ".go"))
+				swapped = true
+			}
+		}
+		if !swapped || attempt > 8 {
+			fatal("building harness against %s failed (this is a build error, not a verdict):\n%s", repoDir, eb.String())
+		}
+	}
+	if len(degraded) > 0 {
+		sort.Strings(degraded)
+		fmt.Printf("note: white-box wrapper group(s) %v do not compile against this tree; the parts of the checks that need them are skipped\n", degraded)
 	}
 	if os.Getenv("VERIF_VERBOSE") != "" {
 		fmt.Fprintf(os.Stderr, "rewrite: %s\n", rewrite.SortedCounts(res.Counts))
@@ -554,6 +583,7 @@ func cmdRun(args []string) int {
 		"build_s":             buildS,
 		"known_findings_seen": len(knownPrinted),
 		"violation_summaries": violSummaries,
+		"whitebox_groups_unavailable": degraded,
 	}
 	if tot.States > 0 {
 		cov["states"] = tot.States
